@@ -42,7 +42,8 @@ APIS = ["thread", "ctx", "since", "inspect"]
 def bodies():
     # per level: [with-nesting shape 0..3, call form 0..9 (plain / returned / *args / **kwargs; 6..9: the innermost level
     # blocks in a C callable by itself)]
-    lv = st.lists(st.tuples(st.integers(0, 3), st.integers(0, 9)).map(list), min_size=1, max_size=6)
+    # shape 4: a frame whose block stack is full (20 nested with blocks; 17 on 3.12)
+    lv = st.lists(st.tuples(st.sampled_from([0, 1, 2, 3, 0, 1, 2, 3, 4]), st.integers(0, 9)).map(list), min_size=1, max_size=6)
     # how the thread came to be: Thread(target=...), a Thread subclass overriding run(), a Timer, or a thread started
     # behind the threading module's back (its Thread object is a dummy)
     return st.tuples(lv, st.sampled_from(["target", "target", "subclass", "timer", "raw"])).map(
